@@ -2,6 +2,8 @@
 
 package fiber
 
+import "sort"
+
 // VerifRouteMatch reports the decision of (*Route).match for the request currently held by c.
 // It exists only under the build tag `verif` for the verification harness in /verif (property
 // C01: dispatch must equal a linear scan of the stack with this very matcher); it has no call
@@ -9,4 +11,26 @@ package fiber
 func VerifRouteMatch(r *Route, c Ctx) bool {
 	var params [maxParams]string
 	return r.match(c.getDetectionPath(), c.Path(), &params)
+}
+
+// VerifTreeStack reports the lookup index built by buildTree for one method: the bucket keys in
+// ascending order and, per bucket, the registration positions (Route.pos) of its routes in scan
+// order. Verification harness only (property C01 compares it with the model's index).
+func VerifTreeStack(app *App, method string) ([]int, [][]uint32) {
+	m := app.methodInt(method)
+	if m < 0 || m >= len(app.treeStack) {
+		return nil, nil
+	}
+	keys := make([]int, 0, len(app.treeStack[m]))
+	for k := range app.treeStack[m] {
+		keys = append(keys, k)
+	}
+	sort.Ints(keys)
+	pos := make([][]uint32, len(keys))
+	for i, k := range keys {
+		for _, r := range app.treeStack[m][k] {
+			pos[i] = append(pos[i], r.pos)
+		}
+	}
+	return keys, pos
 }
